@@ -220,7 +220,7 @@ def real(req, plain=False):
             sg = _mk(d)
             made.append((sg, _src_snap(sg)))
             return sg
-        a = _real(req, plain, mk)
+        a = _real(req, plain, mk, disturb=True)
         if any(_src_snap(sg) != snap for sg, snap in made):
             if a[0] == 'ok':
                 a = a[:6] + (tuple(a[6]) + ('input-mutated',),)
@@ -230,25 +230,62 @@ def real(req, plain=False):
     return _real(req, plain, partial(core.mk_sig, plain=plain))
 
 
-def _real(req, plain, mk):
+def _disturb(req, sigs):
+    """Operations of the public algebra do not modify the signatures they are given (C16), so running other operations on the
+    very same signature OBJECTS first must not change the answer: for a third of the requests (chosen by a hash of the
+    request, hence reproducibly) each input is first masked by one positional, masked by its first keyword-passable name,
+    merged with itself or embedded into itself; whatever those calls return or raise (ValueError) is discarded."""
+    import zlib, warnings
+    h = zlib.crc32(repr(req).encode())
+    if h % 3:
+        return
+    with warnings.catch_warnings():
+        warnings.simplefilter('ignore')
+        for j, sg in enumerate(sigs):
+            k = (h // 3 + j) % 4
+            try:
+                if k == 0:
+                    signatures.mask(sg, 1)
+                elif k == 1:
+                    nm = next((p.name for p in sg.parameters.values() if p.kind in (p.POSITIONAL_OR_KEYWORD, p.KEYWORD_ONLY)), None)
+                    if nm is not None:
+                        signatures.mask(sg, 0, nm)
+                elif k == 2:
+                    signatures.merge(sg, sg)
+                else:
+                    signatures.forwards(sg, sg)
+            except ValueError:
+                pass
+
+
+def _real(req, plain, mk, disturb=False):
     op = req[0]
+    dist = (lambda sigs: _disturb(req, sigs)) if disturb else (lambda sigs: None)
     if op == 'merge':
         sigs = [mk(d) for d in req[1]]
+        dist(sigs)
         return core.run_real(signatures.merge, *sigs)
     if op == 'embed':
         sigs = [mk(d) for d in req[3]]
+        dist(sigs)
         return core.run_real(signatures.embed, *sigs, use_varargs=bool(req[1]), use_varkwargs=bool(req[2]))
     if op == 'mask':
         _, n, nms, fl, d = req
-        return core.run_real(signatures.mask, mk(d), n, *nms, hide_args=fl[0], hide_kwargs=fl[1],
+        sg = mk(d)
+        dist([sg])
+        return core.run_real(signatures.mask, sg, n, *nms, hide_args=fl[0], hide_kwargs=fl[1],
                              hide_varargs=fl[2], hide_varkwargs=fl[3])
     if op == 'maskp':
         _, n, kw, pobj, d = req
         kwd = {k: core.dflt_obj(v) for k, v in kw}
-        return core.run_real(S._mask, mk(d), n, False, False, False, False, kwd, PartialObj(pobj))
+        sg = mk(d)
+        dist([sg])
+        return core.run_real(S._mask, sg, n, False, False, False, False, kwd, PartialObj(pobj))
     if op == 'forwards':
         _, n, nms, fl, o, i = req
-        return core.run_real(signatures.forwards, mk(o), mk(i), n, *nms, hide_args=fl[0], hide_kwargs=fl[1],
+        so, si = mk(o), mk(i)
+        dist([so, si])
+        return core.run_real(signatures.forwards, so, si, n, *nms, hide_args=fl[0], hide_kwargs=fl[1],
                              use_varargs=fl[2], use_varkwargs=fl[3], partial=fl[4])
     if op == 'apply':
         sig = mk(req[1])
